@@ -9,4 +9,13 @@ namespace Risor.C13
 theorem resolvePath_tie (base p : Path) :
     Risor.Generated.C13.resolvePath base p = resolvePath base p := rfl
 
+/-- the two-path methods of the virtual OS look up EACH path argument in the mount table
+    (parameter 0, then parameter 1) and compare the two mounts found — what `twoPath` models and
+    `twoPath_routed_independently` / `cross_mount_refused` are about.  `MkdirTemp(dir, pattern)`
+    looks up the configured temp directory (`osObj.tmp`, not a parameter: 99), none of its
+    arguments.  A further method with two path arguments shows up here. -/
+theorem two_path_lookups_tie :
+    Risor.Generated.C13.twoStringMethodLookups =
+      [("MkdirTemp", [99], false), ("Rename", [0, 1], true), ("Symlink", [0, 1], true)] := by decide
+
 end Risor.C13
